@@ -279,8 +279,20 @@ def guarded(f):
         return f()
     except AssertionError:
         return 'error:assert'
-    except (ValueError, TypeError, IndexError, KeyError) as e:
+    except Exception as e:      # any exception of the implementation is an observation, never an abort of the check
         return 'error:' + type(e).__name__
+
+
+def safely(ctx, key, replay, fn):
+    """run a block that calls into the implementation; an exception becomes a failing input (ctx.fail), never an internal error"""
+    try:
+        return fn()
+    except Exception as e:
+        import traceback
+        tb = traceback.extract_tb(e.__traceback__)
+        where = next((f'{os.path.basename(t.filename)}:{t.lineno}' for t in reversed(tb) if 'numqi' in t.filename), '')
+        ctx.fail(key, f'{type(e).__name__}: {str(e)[:200]} {where}'.strip(), replay)
+        return None
 
 
 def gi(v):
@@ -862,22 +874,22 @@ def probe(ctx):
                     tag = f'{kind}/{"x".join(map(str, dim))}/terms={nterm}'
                     ctx.count('probe-' + kind)
                     ctx.count('probe-dim-' + 'x'.join(map(str, dim)))
-                    check_state(ctx, rho, dim, tag, desc, meas)
+                    safely(ctx, 'criteria:raises', desc, lambda: check_state(ctx, rho, dim, tag, desc, meas))
                     count += 1
         # index layer on a generic Hermitian matrix (not a state: every entry distinct)
         H = rng.normal(size=(N, N)) + 1j * rng.normal(size=(N, N)); H = H + H.conj().T
-        check_index_layer(ctx, H, dim, 'x'.join(map(str, dim)), rho_desc(H, dim, 'random-hermitian'))
+        safely(ctx, 'index-layer:raises', rho_desc(H, dim, 'random-hermitian'), lambda: check_index_layer(ctx, H, dim, 'x'.join(map(str, dim)), rho_desc(H, dim, 'random-hermitian')))
     # pure products with tiny concurrence-type rounding: many two-qubit product mixtures (the NaN of D6 needs c in (0,1e-8))
     for k in range(1500 if ctx.quick() else 6000):
         rho, desc = make_separable(rng, (2, 2), int(rng.integers(1, 9)), 'complex' if k % 3 else 'real')
         ctx.count('probe-2qubit-extra')
-        check_state(ctx, rho, (2, 2), f'2qubit-extra/{k}', desc, meas)
-    for rho, dim, name in family_states():
+        safely(ctx, 'criteria:raises', desc, lambda: check_state(ctx, rho, (2, 2), f'2qubit-extra/{k}', desc, meas))
+    for rho, dim, name in (safely(ctx, 'state-families:raises', dict(op='numqi.state.Werner/Isotropic/get_bes*'), family_states) or []):
         ctx.count('probe-family')
-        check_state(ctx, np.asarray(rho, dtype=np.complex128), dim, name, rho_desc(rho, dim, name), meas)
+        safely(ctx, 'criteria:raises', rho_desc(rho, dim, name), lambda: check_state(ctx, np.asarray(rho, dtype=np.complex128), dim, name, rho_desc(rho, dim, name), meas))
     for pw in bell_diag_grid(rng, ctx.quick()):
         ctx.count('probe-bell-diagonal')
-        check_bell_diag(ctx, pw)
+        safely(ctx, 'criteria:raises', dict(weights=[float(x) for x in pw], dim=[2, 2]), lambda: check_bell_diag(ctx, pw))
     # the documented closed boundary of is_generalized_ppt (`norm<=1+threshold` passes): computational-basis product states have
     # nuclear norm exactly 1 in every realignment (a single entry 1), so they must pass even with threshold=0
     for dim in PROBE_DIMS:
